@@ -1098,6 +1098,8 @@ impl<'a> GeneratorState<'a> {
         self.protected = true;
         let r = self.generate_csleep_statement_ex(cycles, pos);
         self.protected = false;
+        // DEC and PLA change N and Z: they no longer describe a register or variable
+        self.flags = FlagsState::Unknown;
         r
     }
 
